@@ -495,4 +495,25 @@ def banksOk (n : Nat) : Operand → Bool
   | .slice _ s e => decide (s.bank < n) && decide (e.bank < n)
   | _ => true
 
+/-! ### Histories: an instruction object that is printed and modified in place
+
+Real instructions are mutable dataclasses (attribute assignment of operand fields, property
+setters such as `line`, `qreg`, `angle_num`; the NV transpiler re-targets branches with
+`instr.line = …`) and may be printed at any moment (`str`, `debug_str`, `str(subroutine)`).
+In the model an instruction *is* its class and current operand values: an update replaces one
+operand, printing changes nothing, and the printed line is a function of the current value. -/
+
+inductive IUpd
+  /-- `str(i)` / `i.debug_str` / `str(subroutine)` -/
+  | observe
+  /-- in-place assignment of operand slot `k` (field assignment or a property setter) -/
+  | setOp (k : Nat) (o : Operand)
+  deriving DecidableEq, Repr, Inhabited
+
+def applyIUpd : Instr → IUpd → Instr
+  | i, .observe => i
+  | i, .setOp k o => ⟨i.cls, i.ops.set k o⟩
+
+def applyIUpds (i : Instr) (us : List IUpd) : Instr := us.foldl applyIUpd i
+
 end NQ.Text
